@@ -6,8 +6,11 @@ brace-matched function bodies, anchored regular expressions):
   preGate            names compared with `command` in the frame loop of `process_connection` BEFORE
                      `self.process_frame(` whose `if` block calls a `self.handle_*` function and does not
                      test the connection state first (today: SYNC, PSYNC -> handle_sync_command)
-  preGateGuarded     the same special cases when the block tests `ConnectionState::Authenticated`
-                     before the handler call (what the proposed fix looks like)
+  preGateGuarded     the same special cases when the block has exactly the shape of the fix: the connection's state
+                     is read under the lock, `if password.is_some() && !authenticated { NOAUTH } else { handler }`
+  preGateUnknownGuard  the same special cases when the handler call depends on any OTHER condition: the extraction
+                     cannot tell whether that condition is an authentication test, so the model makes no
+                     prediction for these names and the table theorem `tree_preGate_guards_understood` fails
   authAllow          the arms of the `match command.as_str()` inside the gate
                      `if self.config.password.is_some() && conn_status != ConnectionState::Authenticated`
                      of `process_frame`, each with the kind of its right-hand side
@@ -146,19 +149,34 @@ def generate(src, strip_comments, fn_body, header, repo):
     if section is None:
         fail("preGate", "List String", "frame loop of process_connection (for frame in frames_to_process .. self.process_frame() not found")
         fail("preGateGuarded", "List String", "frame loop of process_connection not found")
+        fail("preGateUnknownGuard", "List (String × String)", "frame loop of process_connection not found")
     else:
-        special = []       # (names, handler, guarded)
+        special = []       # (names, handler, guard) guard: "none" | "auth" | "unknown:<text>"
         covered = []       # spans of handler calls inside recognised special cases
+        # the one guard this extraction understands (whitespace-normalised text of the whole block): the
+        # connection's own state is read under the lock and the handler is called only in the `else` of
+        # `if password.is_some() && !authenticated`
+        canonical = re.compile(
+            r'let authenticated = self\.connections\.with_connection\(id, \|conn\| \{ conn\.state == ConnectionState::Authenticated \}\)'
+            r'\.unwrap_or\(false\); if self\.config\.password\.is_some\(\) && !authenticated \{ \w+ = Some\(RespFrame::error\("NOAUTH [^"]*"\)\); \} '
+            r'else \{ \w+ = Some\(self\.handle_\w+\([^;]*\)\?\); \}')
         for m in re.finditer(r'\bif\s+((?:command\s*==\s*%s\s*(?:\|\|\s*)?)+)\{' % NAME, section):
             names = re.findall(NAME, m.group(1))
             end = match_brace(section, m.end() - 1)
             if end is None:
                 continue
             block = section[m.end():end - 1]
+            norm = re.sub(r"\s+", " ", block).strip()
             for hm in re.finditer(r"self\s*\.\s*(handle_\w+)\s*\(", block):
                 before = block[:hm.start()]
-                guarded = "ConnectionState::Authenticated" in before
-                special.append((names, hm.group(1), guarded))
+                if not re.search(r"\b(if|else|match|while|for)\b|\?|&&|\|\|", before):
+                    guard = "none"                      # the handler call is the first thing the block does
+                elif canonical.fullmatch(norm):
+                    guard = "auth"
+                else:
+                    conds = re.findall(r"\bif\s+([^{]*)\{", before)
+                    guard = "unknown:" + re.sub(r"\s+", " ", conds[-1] if conds else before[-60:]).strip()
+                special.append((names, hm.group(1), guard))
                 covered.append((m.end() + hm.start(), m.end() + hm.end()))
         # any other way of reaching a handler before the gate is not understood by this extraction
         stray = [hm for hm in re.finditer(r"self\s*\.\s*(handle_\w+|process_normal_command|process_command_parts)\s*\(", section)
@@ -166,15 +184,21 @@ def generate(src, strip_comments, fn_body, header, repo):
         if stray:
             fail("preGate", "List String", "handler call before process_frame outside an `if command == ..` block: %s" % stray[0].group(1))
             fail("preGateGuarded", "List String", "see preGate")
+            fail("preGateUnknownGuard", "List (String × String)", "see preGate")
         else:
-            pre = uniq([n for ns, _, g in special if not g for n in ns])
-            pre_g = uniq([n for ns, _, g in special if g for n in ns if n not in pre])
+            pre = uniq([n for ns, _, g in special if g == "none" for n in ns])
+            pre_g = uniq([n for ns, _, g in special if g == "auth" for n in ns if n not in pre])
+            pre_u = uniq([(n, g[8:]) for ns, _, g in special if g.startswith("unknown:") for n in ns])
             L.append("/-- names special-cased in the frame loop of `process_connection` BEFORE `process_frame` (hence before the")
-            L.append("    authentication gate) whose block calls %s without testing the connection state -/" % (
-                ", ".join(uniq(["`%s`" % h for _, h, g in special if not g])) or "a handler"))
+            L.append("    authentication gate) whose block calls %s without any condition -/" % (
+                ", ".join(uniq(["`%s`" % h for _, h, g in special if g == "none"])) or "a handler"))
             L.append("def preGate : List String := %s" % lean_list(pre))
-            L.append("/-- the same special cases when the block tests `ConnectionState::Authenticated` before the handler call -/")
+            L.append("/-- the same special cases when the block is exactly: read `conn.state == ConnectionState::Authenticated` under the")
+            L.append("    lock; `if password.is_some() && !authenticated { NOAUTH } else { handler }` -/")
             L.append("def preGateGuarded : List String := %s" % lean_list(pre_g))
+            L.append("/-- special cases whose handler call depends on a condition this extraction cannot interpret (name, condition):")
+            L.append("    the model makes NO prediction for these names (driver class `unknown`) and `tree_preGate_guards_understood` fails -/")
+            L.append("def preGateUnknownGuard : List (String × String) := [%s]" % ", ".join("(%s, %s)" % (lean_str(n), lean_str(c)) for n, c in pre_u))
         loop_names = re.findall(NAME, section)
 
     # ---------------------------------------------------------------- (b) the gate of process_frame
